@@ -1283,6 +1283,97 @@ M('C04', 'ecdh-unpad-manual', FL, C04_ECD, """        return _m[:-_m[-1]]
 """, 'C04.7')
 M('C04', 'key-selection-alg-only-when-set', PGP, "                     and pk.pkalg == self.key_algorithm and pk.encrypter == self.fingerprint.keyid)", "                     and pk.pkalg == self.key_algorithm and (not pk.encrypter or pk.encrypter == self.fingerprint.keyid))", 'C04.6')
 M('C04', 'msg-filter-hasattr', PGP, "        for skesk in iter(sk for sk in self._sessionkeys if isinstance(sk, SKESessionKey)):", "        for skesk in iter(sk for sk in self._sessionkeys if hasattr(sk, 'decrypt_sk')):", 'C04.5')
+# ---- follow-up: C04.8 (message composition) and further mutant kinds (connectives, home-grown compare, store before check, widened handler, leniency flags)
+C04_OR_DATA = """        if isinstance(other, (LiteralData, SKEData, IntegrityProtectedSKEData)):
+            if self._message is None:
+                self._message = other
+                return self
+
+"""
+T('C04', 'twin-or-explicit-duplicate-raise', PGP, C04_OR_DATA, """        if isinstance(other, (LiteralData, SKEData, IntegrityProtectedSKEData)):
+            if self._message is not None:
+                raise NotImplementedError("second data packet: " + str(type(other)))
+            self._message = other
+            return self
+
+""")
+T('C04', 'twin-or-combined-condition', PGP, C04_OR_DATA, """        is_data = isinstance(other, LiteralData) or isinstance(other, SKEData) or isinstance(other, IntegrityProtectedSKEData)
+        if is_data and self._message is None:
+            self._message = other
+            return self
+
+""")
+M('C04', 'or-second-data-packet-dropped', PGP, C04_OR_DATA, """        if isinstance(other, (LiteralData, SKEData, IntegrityProtectedSKEData)):
+            if self._message is None:
+                self._message = other
+                return self
+
+            warnings.warn("Discarded unexpected packet: {:s}".format(other.__class__.__name__), stacklevel=2)
+            return self
+
+""", 'C04.8')
+M('C04', 'or-last-data-packet-wins', PGP, C04_OR_DATA, """        if isinstance(other, (LiteralData, SKEData, IntegrityProtectedSKEData)):
+            self._message = other
+            return self
+
+""", 'C04.8')
+M('C04', 'or-literal-after-encrypted-tolerated', PGP, C04_OR_DATA, """        if isinstance(other, (LiteralData, SKEData, IntegrityProtectedSKEData)):
+            if self._message is None:
+                self._message = other
+                return self
+
+            if isinstance(other, LiteralData):
+                return self
+
+""", 'C04.8')
+M('C04', 'or-text-overwrites', PGP, "        if isinstance(other, (str, bytes, bytearray)):\n            if self._message is None:\n                self._message = self.text_to_bytes(other)\n                return self\n", "        if isinstance(other, (str, bytes, bytearray)):\n            self._message = self.text_to_bytes(other)\n            return self\n", 'C04.8')
+
+# ---- further mutant kinds
+M('C04', 'seipd-not-a-or-b', PK, C04_SEIPD, """        pt = _decrypt(bytes(self.ct), bytes(key), alg)
+        bs = alg.block_size // 8
+        mdc_ok = constant_time.bytes_eq(bytes(pt[-22:]), b'\\xd3\\x14' + hashlib.new('SHA1', pt[:-20]).digest())
+        prefix_ok = constant_time.bytes_eq(bytes(pt[bs - 2:bs]), bytes(pt[bs:bs + 2]))
+        if not (mdc_ok or prefix_ok):
+            raise PGPDecryptionError("Decryption failed")
+        return pt[bs + 2:]
+""", 'C04.1')
+M('C04', 'keyblob-usage-or-trailer', FL, "        if self.s2k.usage == 254 and not pt[-20:] == hashlib.new('sha1', pt[:-20]).digest():", "        if not (self.s2k.usage == 254 or pt[-20:] == hashlib.new('sha1', pt[:-20]).digest()):", 'C04.4')
+M('C04', 'seipd-homegrown-compare-assign', PK, "        if not constant_time.bytes_eq(bytes(pt[-22:]), _expected_mdcbytes):\n            raise PGPDecryptionError(\"Decryption failed\")  # pragma: no cover\n",
+  "        diff = 0\n        for x, y in zip(bytes(pt[-22:]), _expected_mdcbytes):\n            diff = x ^ y\n        if diff != 0:\n            raise PGPDecryptionError(\"Decryption failed\")  # pragma: no cover\n", 'C04.1')
+M('C04', 'keyblob-stored-before-check', FL, "        # check the hash to see if we decrypted successfully or not\n        if self.s2k.usage == 254", "        self._cleartext = bytearray(pt)\n\n        # check the hash to see if we decrypted successfully or not\n        if self.s2k.usage == 254", 'C04.4')
+M('C04', 'keyblob-usage-cleared-early', FL, "        # check the hash to see if we decrypted successfully or not\n        if self.s2k.usage == 254", "        usage, self.s2k.usage = self.s2k.usage, 0\n\n        # check the hash to see if we decrypted successfully or not\n        if self.s2k.usage == 254", 'C04.4')
+M('C04', 'seipd-stored-before-check', PK, "        pt = _decrypt(bytes(self.ct), bytes(key), alg)\n\n        # do the MDC checks", "        pt = _decrypt(bytes(self.ct), bytes(key), alg)\n        self._plaintext = pt[:]\n\n        # do the MDC checks", 'C04.1')
+M('C04', 'key-outer-handler-swallows', PGP, "        decmsg = PGPMessage()\n        decmsg.parse(message.message.decrypt(key, alg))\n\n        return decmsg\n\n    def parse(self, data):", "        decmsg = PGPMessage()\n        try:\n            decmsg.parse(message.message.decrypt(key, alg))\n        except PGPError as exc:\n            warnings.warn(str(exc))\n\n        return decmsg\n\n    def parse(self, data):", 'C04.6')
+M('C04', 'msg-handler-widened-around-loop', PGP, C04_MSG_LOOP, """        decmsg = PGPMessage()
+        try:
+            for skesk in iter(sk for sk in self._sessionkeys if isinstance(sk, SKESessionKey)):
+                symalg, key = skesk.decrypt_sk(passphrase)
+                decmsg.parse(self.message.decrypt(key, symalg))
+                break
+
+            else:
+                raise PGPDecryptionError("Decryption failed")
+
+        except (TypeError, ValueError, NotImplementedError):
+            raise PGPDecryptionError("Decryption failed")
+
+        except PGPError:
+            pass
+
+        return decmsg
+""", 'C04.5')
+M('C04', 'seipd-lenient-default-true', PK, "    def decrypt(self, key, alg):\n        # iv, ivl2, pt = super(IntegrityProtectedSKEDataV1, self).decrypt(key, alg)", "    def decrypt(self, key, alg, lenient=True):\n        # iv, ivl2, pt = super(IntegrityProtectedSKEDataV1, self).decrypt(key, alg)", 'C04.1',
+  more=[(PK, "        if not constant_time.bytes_eq(bytes(pt[-22:]), _expected_mdcbytes):\n            raise", "        if not constant_time.bytes_eq(bytes(pt[-22:]), _expected_mdcbytes) and not lenient:\n            raise")])
+M('C04', 'seipd-strict-constant-false', PK, "        if not constant_time.bytes_eq(bytes(pt[-22:]), _expected_mdcbytes):\n            raise", "        if self._STRICT_MDC and not constant_time.bytes_eq(bytes(pt[-22:]), _expected_mdcbytes):\n            raise", 'C04.1',
+  more=[(PK, "    def decrypt(self, key, alg):\n        # iv, ivl2, pt = super(IntegrityProtectedSKEDataV1, self).decrypt(key, alg)", "    _STRICT_MDC = False\n\n    def decrypt(self, key, alg):\n        # iv, ivl2, pt = super(IntegrityProtectedSKEDataV1, self).decrypt(key, alg)")])
+M('C04', 'keyblob-verify-default-false', FL, "    def decrypt_keyblob(self, passphrase):\n        if not self.s2k:  # pragma: no cover", "    def decrypt_keyblob(self, passphrase, verify=False):\n        if not self.s2k:  # pragma: no cover", 'C04.4',
+  more=[(FL, "        if self.s2k.usage == 254 and not pt[-20:] == hashlib.new('sha1', pt[:-20]).digest():", "        if verify and self.s2k.usage == 254 and not pt[-20:] == hashlib.new('sha1', pt[:-20]).digest():")])
+M('C04', 'ecdh-strict-flag', FL, C04_ECD, """        padder = PKCS7(64).unpadder()
+        data = padder.update(_m)
+        if getattr(pk, 'strict_padding', False):
+            data += padder.finalize()
+        return data
+""", 'C04.7')
 
 # =============================================================================================== C03
 M('C03', 'checksum-65535', PK, "        m += self.int_to_bytes(sum(bytearray(symkey)) % 65536, 2)", "        m += self.int_to_bytes(sum(bytearray(symkey)) % 65535, 2)", 'C03.1')
@@ -3833,3 +3924,30 @@ for _n, _what, _r in (
         ('C05-mut09', 'canonical-bytes-fresh-subpackets', 'C05.4'), ('C05-mut10', 'capture-kept-only-if-length-differs', 'C05.1'),
         ('C05-mut11', 'update-hlen-drops-capture', 'C05.3')):      # C05-mut12 (sigtype & 0x7f) is the corpus entry 'sigtype-masked'
     _MD(_n[:3], 'stress-G2-%s-%s' % (_n, _what), 'G2-%s.diff' % _n, _r)
+
+
+# =============================================================================================== C02 / C05: load path, caches, cooperating sites, degenerate slices
+_SPP = "        self.subpackets.parse(packet)\n\n        self.hash2 = packet[:2]\n"
+M('C05', 'load-synthesises-hashed-issuer', PK, _SPP, "        self.subpackets.parse(packet)\n\n        if 'Issuer' not in self.subpackets:\n            hfprs = [sp for sp in self.subpackets['h_IssuerFingerprint'] if sp.version == 4]\n            fprs = [sp for sp in self.subpackets['IssuerFingerprint'] if sp.version == 4]\n            if fprs:\n                self.subpackets.addnew('Issuer', hashed=bool(hfprs), _issuer=str((hfprs or fprs)[-1].issuer_fingerprint.keyid))\n\n        self.hash2 = packet[:2]\n", 'C05.1')
+M('C05', 'load-helper-refiles-first-hashed', PK, _SPP, "        self.subpackets.parse(packet)\n        self._dedupe_creation_time()\n\n        self.hash2 = packet[:2]\n", 'C05.1',
+  more=[(PK, "    def update_hlen(self):\n        self.subpackets.update_hlen()\n        super(SignatureV4, self).update_hlen()", "    def _dedupe_creation_time(self):\n        times = self.subpackets['h_CreationTime']\n        if len(times) > 1:\n            self.subpackets['h_CreationTime'] = times[-1]\n\n    def update_hlen(self):\n        self.subpackets.update_hlen()\n        super(SignatureV4, self).update_hlen()")])
+M('C05', 'load-composition-adds-features', PGP, "        if isinstance(other, Signature):\n            if self._signature is None:\n                self._signature = other\n                return self\n",
+  "        if isinstance(other, Signature):\n            if self._signature is None:\n                self._signature = other\n                if not other.subpackets['h_Features']:\n                    other.subpackets.addnew('Features', hashed=True, flags=Features.pgpy_features)\n                return self\n", 'C05.1')
+M('C05', 'load-drops-capture-for-v4-only', PK, _SPP, "        self.subpackets.parse(packet)\n        if self.header.version != 4:\n            self.subpackets._hashed_raw = None\n\n        self.hash2 = packet[:2]\n", 'C05.1')
+M('C05', 'load-normalises-deprecated-rsa-id', PK, "        self.pubalg = packet[0]\n        del packet[0]\n\n        self.halg = packet[0]\n        del packet[0]\n", "        self.pubalg = packet[0]\n        del packet[0]\n        if self.pubalg == PubKeyAlgorithm.RSASign:\n            self.pubalg = PubKeyAlgorithm.RSAEncryptOrSign\n\n        self.halg = packet[0]\n        del packet[0]\n", 'C05.5')
+T('C05', 'twin-load-subpackets-alias-and-unhashed-literal-read', PK, _SPP, "        area = self.subpackets\n        area.parse(packet)\n        _issuers = area['Issuer']\n\n        self.hash2 = packet[:2]\n")
+_REPLAY = "        if self._hashed_raw is not None:\n            # signatures are computed over the octets that were received, not over a re-encoding of them\n            return bytearray(self._hashed_raw)\n\n        _bytes = bytearray()\n        _bytes += self.int_to_bytes(sum(len(sp) for sp in self._hashed_sp.values()), 2)"
+M('C05', 'replay-cache-survives-reparse', FL, _REPLAY, "        if getattr(self, '_hashed_cache', None) is not None:\n            return bytearray(self._hashed_cache)\n        if self._hashed_raw is not None:\n            self._hashed_cache = bytearray(self._hashed_raw)\n            return bytearray(self._hashed_raw)\n\n        _bytes = bytearray()\n        _bytes += self.int_to_bytes(sum(len(sp) for sp in self._hashed_sp.values()), 2)", 'C05.2')
+M('C05', 'replay-cache-attribute-first', FL, _REPLAY, "        if self._hashed_cache is not None:\n            return bytearray(self._hashed_cache)\n        if self._hashed_raw is not None:\n            self._hashed_cache = self._hashed_raw\n            return bytearray(self._hashed_raw)\n\n        _bytes = bytearray()\n        _bytes += self.int_to_bytes(sum(len(sp) for sp in self._hashed_sp.values()), 2)", 'C05.2',
+  more=[(FL, "        self._hashed_raw = None\n\n    def __bytearray__(self):", "        self._hashed_raw = None\n        self._hashed_cache = None\n\n    def __bytearray__(self):")])
+M('C05', 'replay-dirty-flag-two-sites', FL, "        if self._hashed_raw is not None:\n            # signatures", "        if self._hashed_raw is not None and not getattr(self, '_lengths_dirty', False):\n            # signatures", 'C05.2',
+  more=[(FL, "    def update_hlen(self):\n        for sp in self:\n            sp.update_hlen()\n\n    def parse(self, packet):\n        hl =", "    def update_hlen(self):\n        for sp in self:\n            sp.update_hlen()\n        self._lengths_dirty = True\n\n    def parse(self, packet):\n        hl =")])
+M('C05', 'trailer-length-from-parsed-subpackets', PGP, "        hlen = len(hcontext)\n", "        hlen = 4 + 2 + sum(len(sp) for sp in self._signature.subpackets._hashed_sp.values())\n", 'C05.4')
+M('C02', 'trailer-length-from-parsed-subpackets', PGP, "        hlen = len(hcontext)\n", "        hlen = 4 + 2 + sum(len(sp) for sp in self._signature.subpackets._hashed_sp.values())\n", 'C02.1')
+M('C05', 'capture-all-but-tail-degenerates', FL, "        hashed_raw = packet[:2 + hl]", "        hashed_raw = packet[:-(len(packet) - 2 - hl)]", 'C05.1')
+M('C05', 'replay-negative-slice-degenerates', FL, "            return bytearray(self._hashed_raw)\n", "            return bytearray(self._hashed_raw[-(len(self._hashed_raw) - 0):] if False else self._hashed_raw[:2] + self._hashed_raw[-(len(self._hashed_raw) - 2):])\n", 'C05.2')
+M('C02', 'rsa-sig-negative-slice-degenerates', FL, "        return self.md_mod_n.to_mpibytes()[2:]", "        mpi = self.md_mod_n.to_mpibytes()\n        return mpi[-(len(mpi) - 2):]", 'C02.4')
+M('C02', 'hash2-negative-slice-degenerates', PGP, "        sig._signature.hash2 = bytearray(h2.digest()[:2])", "        digest = h2.digest()\n        sig._signature.hash2 = bytearray(digest[:-(len(digest) - 2)])", 'C02.2')
+M('C02', 'key-hashdata-negative-slice-degenerates', PGP, "        return self._uid.__bytearray__()[len(self._uid.header):]", "        body = self._uid.__bytearray__()\n        return body[-(len(body) - len(self._uid.header)):]", 'C02.1b')
+T('C05', 'twin-parse-split-into-two-helpers', FL, "    def parse(self, packet):\n        hl = self.bytes_to_int(packet[:2])\n        hashed_raw = packet[:2 + hl]", "    def parse(self, packet):\n        self._parse_hashed(packet)\n        self._parse_unhashed(packet)\n\n    def _parse_hashed(self, packet):\n        hl = self.bytes_to_int(packet[:2])\n        hashed_raw = packet[:2 + hl]",
+  more=[(FL, "        self._hashed_raw = hashed_raw\n\n        uhl = self.bytes_to_int(packet[:2])", "        self._hashed_raw = hashed_raw\n\n    def _parse_unhashed(self, packet):\n        uhl = self.bytes_to_int(packet[:2])")])
